@@ -83,24 +83,24 @@ func NextSerial() *big.Int {
 
 // CertOpts describes a certificate to be issued.
 type CertOpts struct {
-	CN          string
-	RawSubject  []byte // overrides CN when set
-	Serial      *big.Int
-	Key         crypto.Signer // generated (P-256) when nil
-	IsCA        bool
-	KeyUsage    x509.KeyUsage // 0 => default for the role
-	NoKeyUsage  bool          // omit the KeyUsage extension completely
-	ExtKeyUsage []x509.ExtKeyUsage
-	CDP         []string
-	OCSP        []string
-	DNSNames    []string
-	SKI         []byte // overrides the computed subject key identifier
-	NoBasicConstraints bool // omit the basicConstraints extension
-	NoSKI       bool
-	NoAKI       bool
-	NotBefore   time.Time
-	NotAfter    time.Time
-	SigAlg      x509.SignatureAlgorithm
+	CN                 string
+	RawSubject         []byte // overrides CN when set
+	Serial             *big.Int
+	Key                crypto.Signer // generated (P-256) when nil
+	IsCA               bool
+	KeyUsage           x509.KeyUsage // 0 => default for the role
+	NoKeyUsage         bool          // omit the KeyUsage extension completely
+	ExtKeyUsage        []x509.ExtKeyUsage
+	CDP                []string
+	OCSP               []string
+	DNSNames           []string
+	SKI                []byte // overrides the computed subject key identifier
+	NoBasicConstraints bool   // omit the basicConstraints extension
+	NoSKI              bool
+	NoAKI              bool
+	NotBefore          time.Time
+	NotAfter           time.Time
+	SigAlg             x509.SignatureAlgorithm
 }
 
 func ski(pub crypto.PublicKey) []byte {
